@@ -65,6 +65,9 @@ func (c *Conn) WriteTo(p []byte, addr net.Addr) (int, error) {
 	default:
 	}
 	ua, _ := addr.(*net.UDPAddr)
+	if ua != nil {
+		ua = &net.UDPAddr{IP: append(net.IP(nil), ua.IP...), Port: ua.Port, Zone: ua.Zone}
+	}
 	c.mu.Lock()
 	c.nWrites++
 	w := &Write{At: time.Now(), To: ua, B: append([]byte(nil), p...), Seq: c.nWrites}
@@ -114,6 +117,11 @@ type Injection struct{ done chan struct{} }
 
 func (c *Conn) Inject(from net.Addr, b []byte) *Injection {
 	inj := &Injection{done: make(chan struct{})}
+	// A real socket hands out a fresh address value per datagram: never alias the harness' own
+	// address objects (code that scribbles on the sender's address must not corrupt the oracle).
+	if ua, ok := from.(*net.UDPAddr); ok {
+		from = &net.UDPAddr{IP: append(net.IP(nil), ua.IP...), Port: ua.Port, Zone: ua.Zone}
+	}
 	go func() {
 		select {
 		case c.in <- Packet{From: from, B: b}:
